@@ -102,7 +102,7 @@ theorem good_errorStatus (oid : Bytes) (final : Option Bytes) (r : Resp) (t : Tm
 
 /-- the hash that is compared is the hash of the file that is renamed -/
 theorem consume_spec (oid : Bytes) (t : Tmp) (r : Resp) (final : Option Bytes)
-    (hinv : t.hashed = t.file) (hfin : ∀ c, final = some c → H c = oid) :
+    (hinv : t.hashed = t.file) :
     Good H oid final (consume H oid t r final) := by
   unfold consume
   simp only
@@ -115,8 +115,7 @@ theorem consume_spec (oid : Bytes) (t : Tmp) (r : Resp) (final : Option Bytes)
       refine ⟨fun _ => ⟨_, rfl, ?_⟩, fun h => absurd rfl h⟩
       rw [← hinv]; exact hh'
 
-theorem fresh_spec (oid : Bytes) (script : List Resp) (final : Option Bytes)
-    (hfin : ∀ c, final = some c → H c = oid) :
+theorem fresh_spec (oid : Bytes) (script : List Resp) (final : Option Bytes) :
     Good H oid final (downloadFresh H oid script final) := by
   unfold downloadFresh
   split
@@ -126,10 +125,10 @@ theorem fresh_spec (oid : Bytes) (script : List Resp) (final : Option Bytes)
     · exact good_fail H oid final _ _ _
     · split
       · exact good_errorStatus H oid final r _
-      · exact consume_spec H oid ⟨[], []⟩ r final rfl hfin
+      · exact consume_spec H oid ⟨[], []⟩ r final rfl
 
 theorem resume_spec (oid : Bytes) (t : Tmp) (script : List Resp) (final : Option Bytes)
-    (hinv : t.hashed = t.file) (hfin : ∀ c, final = some c → H c = oid) :
+    (hinv : t.hashed = t.file) :
     Good H oid final (downloadResume H oid t script final) := by
   unfold downloadResume
   split
@@ -139,19 +138,18 @@ theorem resume_spec (oid : Bytes) (t : Tmp) (script : List Resp) (final : Option
     · exact good_fail H oid final _ _ _
     · split
       · split
-        · exact fresh_spec H oid rest final hfin
+        · exact fresh_spec H oid rest final
         · exact good_errorStatus H oid final r _
       · simp only
         split
-        · exact consume_spec H oid t r final hinv hfin
+        · exact consume_spec H oid t r final hinv
         · split
-          · exact consume_spec H oid ⟨[], []⟩ r final rfl hfin
-          · exact fresh_spec H oid rest final hfin
+          · exact consume_spec H oid ⟨[], []⟩ r final rfl
+          · exact fresh_spec H oid rest final
 
 /-- **C02.basic_success_hash / basic_failure_no_final_change**, for every script, every `.part`
-state (absent, prefix, garbage, too long) and every intact prior state of the final path. -/
-theorem doTransfer_spec (oid : Bytes) (size : Nat) (fs : Files) (script : List Resp)
-    (hfin : ∀ c, fs.final = some c → H c = oid) :
+state (absent, prefix, garbage, too long) and EVERY prior content of the final path, intact or not. -/
+theorem doTransfer_spec (oid : Bytes) (size : Nat) (fs : Files) (script : List Resp) :
     ((doTransfer H oid size fs script).1 = .ok →
         ∃ c, (doTransfer H oid size fs script).2.final = some c ∧ H c = oid) ∧
     ((doTransfer H oid size fs script).1 ≠ .ok →
@@ -161,8 +159,8 @@ theorem doTransfer_spec (oid : Bytes) (size : Nat) (fs : Files) (script : List R
         downloadResume H oid ⟨fs.part.getD [], fs.part.getD []⟩ script fs.final
       else downloadFresh H oid script fs.final) := by
     split
-    · exact resume_spec H oid _ script fs.final rfl hfin
-    · exact fresh_spec H oid script fs.final hfin
+    · exact resume_spec H oid _ script fs.final rfl
+    · exact fresh_spec H oid script fs.final
   unfold doTransfer
   simp only
   generalize (if 0 < (fs.part.getD []).length ∧ (fs.part.getD []).length + 1 < size then
